@@ -9,14 +9,13 @@ TOPICS = ["Roots", "Eval"]
 LEAN_TARGETS = ["BezierVerif.Props.Roots", "BezierVerif.Props.C02", "BezierVerif.Props.C03", "BezierVerif.Props.C02E", "BezierVerif.Props.C03M", "BezierVerif.Props.C03N"]
 TV_DEFS = ["quadraticRoots", "cubic_dcoeffs", "quad_findDRoots", "cubic_splitAtTime", "quad_splitAtTime", "line_splitAtTime"]
 RULE = ("segments from the Appendix-B families incl. arches / elevated curves (derivative linear or constant in a coordinate); open and closed "
-        "paths of 1..6 mixed segments with pairwise different segments (two value-equal segments share one dict key in splitAtPoints: "
-        "re-drawn and counted); reference = exact simple roots of x' and y' and exact de Casteljau pieces in Fractions; inputs with a root "
+        "paths of 1..6 mixed segments, one in seven running over the same stretch twice (value-equal segments share one dict key in splitAtPoints); reference = exact simple roots of x' and y' and exact de Casteljau pieces in Fractions; inputs with a root "
         "within 1e-7 of 0.01/0.99 or a near-double root are classified 'boundary' and skipped; non-trivial = at least one extreme")
 UNPROVED = ["'changes sign' is stated as: simple root (genuinely quadratic with positive discriminant, or genuinely linear) — the equivalence with a sign change is used inside sign_const but not stated as a theorem of its own",
             "the theorems about pieces assume that no cut is skipped by the 1e-8 duplicate test (NoSkip; discharged by noSkip_of_gaps for cuts at least 1e-8 apart) — coincident x- and y-extremes are sampled",
             "closedness / node preservation of addExtremes on whole paths — sampled (per-segment chain theorem proved)",
             "float residuals (theorems are over the reals)"]
-ASSUMPTIONS = ["segments of one path are pairwise different as values", "math.sqrt real"]
+ASSUMPTIONS = ["math.sqrt real", "the monotonicity theorems are stated for the positional model, which is the dict model for paths with pairwise different segments (splitAtPointsDict_eq); paths with repeated segments go through the dict model in the correspondence and through cutSeg_cons_dup"]
 LEVEL_TEXT = ("theorems: cubic_extremes_mem_iff / quad_findDRoots_mem (the regenerated solver + the sort/filter glue report exactly the simple roots of x' or y' in [0.01,0.99]; sorted), "
               "none for a line; cutSeg_retrace (pieces of the split walk evaluate to the original at lo_j + s(hi_j-lo_j), including the mapx re-mapping), "
               "cutSeg_chain (for every cut list the pieces are a connected chain from the segment's start to its end, same kind), noSkip_of_gaps; "
@@ -43,8 +42,16 @@ def rand_path(rng, maxn=6):
         # re-anchor on the chain nodes (keeps arch / elevated shape up to an affine shear of the ends)
         inner = pts[1:-1]
         segs.append([nodes[i]] + inner + [nodes[i + 1]])
-    if len(set(map(lambda s: tuple(s), segs))) != len(segs) or any(s[0] == s[-1] and len(set(s)) == 1 for s in segs):
+    if any(s[0] == s[-1] and len(set(s)) == 1 for s in segs):
         return rand_path(rng, maxn)
+    if n >= 2 and rng.random() < 0.15:
+        # the same stretch of outline twice in one path (an outline traversed twice, a stroke retraced): value-equal segments share one
+        # entry of splitAtPoints' dict, and every occurrence must be cut (F28)
+        if closed:
+            segs = segs + [list(s) for s in segs]
+        else:
+            back = [list(reversed(s)) for s in reversed(segs)]
+            segs = segs + back + [list(s) for s in segs]
     return segs, closed and n >= 2
 
 
